@@ -340,6 +340,21 @@ def check(tier: str) -> Result:
         raise AnalysisError(f"only {n_wr} functional wrapper classes found (hand-confirmed minimum 5)")
     from . import wiring
     n_cs = wiring.class_state_writes(res, tree, "C02.R6", lambda ci: ci.module.name.startswith("jumanji.environments.") and not ci.module.name.endswith(".types") or ci.module.name in ("jumanji.wrappers", "jumanji.specs"))
+    # ---- R6 (modules): no function of an environment / wrapper / spec module writes a module-level container that is
+    # also read somewhere (a process-wide memo or cache makes a fresh instance depend on what was built before it)
+    from .c18 import module_state_writes
+    n_mods = 0
+    for mname, m in sorted(tree.modules.items()):
+        if not (mname.startswith("jumanji.environments.") or mname in ("jumanji.wrappers", "jumanji.specs", "jumanji.env", "jumanji.types", "jumanji.tree_utils")):
+            continue
+        n_mods += 1
+        scanned, mw = module_state_writes(m, "<none>")
+        for fn_node, node, hit, verdict in mw:
+            if verdict is False:
+                res.add("C02.R6", f"{m.relpath}:{node.lineno}", short(mname) + "." + fn_node.name, f"module-level state write: {hit}", False,
+                        "a module-level container that the code also reads is written by a function: results depend on what ran earlier in the process (two fresh instances with the same configuration can differ)")
+    res.add("C02.R6", "jumanji/environments", "environment / wrapper / spec modules", "no function writes a module-level container that is read elsewhere", not any(o.ok is False and o.rule == "C02.R6" and "module-level state write" in o.construct for o in res.obligations),
+            f"{n_mods} modules scanned")
     from . import shape_rules
     n_shapes = shape_rules.state_shape_obligations(res, tree, "C02.R5")
     # ---- R9: batched execution equals per-instance execution in the wrappers too (borrowed from C14)
